@@ -44,6 +44,30 @@ NOT_CARRIED = [
     "harness case: a side that crosses the ray's line at an angle below epsilon = 1e-6 rad is skipped by the "
     "'parallel' gate of _project_to_plane, so interior points of sliver polygons (e.g. (0,0) (2e6,1) (0,2), point "
     "(1,0.5)) are reported outside",
+    "the composed room (Model/Full.v): PROVED (coq/theories/Proofs/FullVisibility.v) (i) for a room whose walls lie "
+    "in axis planes, are at least one patch wide in both directions and carry + or - the unit vector of their flat "
+    "axis as normal (axis_walls = the C08 predicate wall_ok + axis normal) every patch surface of the model is a "
+    "well-formed axis-aligned rectangle (C07_room_patches_are_rects, derived from the tiling theorems); (ii) for two "
+    "patches i < j whose centroids are in general position with respect to every patch rectangle r (gen_pos: each "
+    "centroid is farther than eta and epsilon from the plane of r, or lies exactly in it and farther than m >= eta/2 "
+    "from the four edge lines of r; if both are off the plane and the OPEN segment between them crosses the plane, "
+    "the crossing point is farther than m from the edge lines) the relation used by the energy exchange, vis_sym, "
+    "holds iff NO patch rectangle blocks the segment between the centroids (C07_room_visibility_geometric, "
+    "C07_room_visibility_geometric_shoebox; blocked = the open segment meets the open rectangle / one end in the "
+    "rectangle and the other behind it / both ends in the plane and one in the rectangle; C07_blocked_iff_rect "
+    "also covers an end point in the plane BESIDE the rectangle, which never hides; needs 0 < eta); (iii) the clauses of "
+    "gen_pos about a patch's OWN rectangle are theorems about the centroid the model computes (sum of the four "
+    "vertices / 4): exactly in the plane, strictly inside, farther than m from the edge lines when both cell sides "
+    "exceed 2 m (C07_rect_own_centroid, C07_room_center_is_rect_centroid), hence with NO hypothesis on the other "
+    "surfaces a patch never exchanges energy with a patch whose centroid is behind it or in its own plane "
+    "(C07_room_behind_hidden, C07_room_coplanar_hidden).  NOT proved: "
+    "that the centroids of a given room are in general position with respect to the OTHER patches' rectangles "
+    "-- a statement about its dimensions (inside a convex room the open segment between two centroids meets no "
+    "wall plane, and a centroid is half a cell away from the edge lines of the other cells of its wall, so the "
+    "clauses are expected to hold for every shoebox whose cell sides exceed twice the margin m; this is argued, "
+    "not formalised); the analogous statement for "
+    "point-to-patch visibility against the WALLS (room_point_vis: only the scan = conjunction form and the "
+    "per-rectangle theorem apply); rooms with walls that are not axis-aligned rectangles",
     "the float gap: C07_symmetric is an identity of exact field arithmetic; on IEEE doubles the two "
     "evaluation orders can differ within rounding of a decision boundary (the harness evaluates both orders "
     "on general-position inputs and demands equal answers)",
